@@ -2,39 +2,41 @@
    Only statements closed by `exact <lemma>` and their Print Assumptions.
    report lists are compared for equality as lists (pre-order of the file, one entry per call). *)
 From TL Require Import Lib.Base Lib.GenTypes Model.RustSafetyTypes Model.RustSafetySpec Gen.RustSafetyGen Model.RustSafety
-     Actual.RustSafetyActual Proofs.RustSafetyWalk Proofs.RustSafetyCtx Proofs.RustSafetyEmit Proofs.RustSafetyMain Proofs.RustSafetyPlain.
+     Model.RustSafetyRun Actual.RustSafetyActual Proofs.RustSafetyWalk Proofs.RustSafetyCtx Proofs.RustSafetyEmit Proofs.RustSafetyMain Proofs.RustSafetyPlain.
 
 (* 1. unwrap-abuse: for every quirk vector whose relevant flags are off, every configuration and every
       file, the model reports exactly every .unwrap() — and every .expect() when allow_expect is off —
       once, at its position, except inside #[test] functions / #[cfg(test)] modules while allow_in_tests. *)
-Theorem C17_unwrap_exact : forall q c file,
+Theorem C17_unwrap_exact : forall q ls c file,
   context_flags_off q -> q_chain_start_line q = false ->
-  unwrap_report q c file = spec_unwrap_report c file.
+  unwrap_report q ls c file = spec_unwrap_report ls c file.
 Proof. exact unwrap_exact. Qed.
 Print Assumptions C17_unwrap_exact.
 
 (* 2. clone-abuse: exactly the .clone() calls in a loop, chained on a clone, or in a let whose source
       identifier does not appear afterwards in the block, each under the first enabled pattern. *)
-Theorem C17_clone_exact : forall q c file,
+Theorem C17_clone_exact : forall q ls c file,
   context_flags_off q -> q_chain_start_line q = false -> q_for_header_in_loop q = false ->
   q_clone_first_pattern q = false ->
-  clone_report q c file = spec_clone_report c file.
+  clone_report q ls c file = spec_clone_report ls c file.
 Proof. exact clone_exact. Qed.
 Print Assumptions C17_clone_exact.
 
 (* 3. blocking-async: exactly the documented std::fs / thread::sleep / std::net call paths lexically
-      inside an async fn and not inside a spawn_blocking / block_in_place / asyncify call. *)
-Theorem C17_blocking_exact : forall q c file,
-  context_flags_off q -> q_net_bare_type q = false ->
-  blocking_report q c file = spec_blocking_report c file.
+      inside an async fn and not inside a spawn_blocking / block_in_place / asyncify call (function, path or
+      method form). *)
+Theorem C17_blocking_exact : forall q ls c file,
+  context_flags_off q -> q_net_bare_type q = false -> q_wrapper_method_form q = false -> q_blocking_msg_line q = false ->
+  blocking_report q ls c file = spec_blocking_report ls c file.
 Proof. exact blocking_exact. Qed.
 Print Assumptions C17_blocking_exact.
 
 (* 4. all three commands together *)
-Theorem C17_report_exact : forall q c file,
+Theorem C17_report_exact : forall q ls c file,
   context_flags_off q -> q_chain_start_line q = false -> q_for_header_in_loop q = false ->
-  q_clone_first_pattern q = false -> q_net_bare_type q = false ->
-  report q c file = spec_report c file.
+  q_clone_first_pattern q = false -> q_net_bare_type q = false -> q_wrapper_method_form q = false ->
+  q_blocking_msg_line q = false ->
+  report q ls c file = spec_report ls c file.
 Proof. exact report_exact. Qed.
 Print Assumptions C17_report_exact.
 
@@ -42,62 +44,65 @@ Print Assumptions C17_report_exact.
       the current tree — already equals the specification on every file that passes the executable
       guard: no reportable call inside a macro invocation, attribute lists the code's sibling walk
       judges like the specification, method calls on the line where their receiver starts, no clone in
-      a `for` iterator expression, call paths the code's table classifies as documented; for clone-abuse
-      additionally all detect_* options on.
+      a `for` iterator expression, call paths the code's table classifies as documented, no documented blocking
+      call inside a method-form wrapper; for clone-abuse additionally all detect_* options on; for blocking-async
+      up to the message text (rule ids and positions; every message is the listed finding q_blocking_msg_line).
       (Since the fix commit def5e3f comments among attributes are no longer restricted: statements 1-4 hold
       whatever q_attr_stop_at_comment is.  The NetType::method fix e1a1fd7 was undone by a07d81a.) *)
-Theorem C17_unwrap_actual_partial : forall c file,
-  file_guard LUnwrap rust_actual file = true -> unwrap_report rust_actual c file = spec_unwrap_report c file.
+Theorem C17_unwrap_actual_partial : forall ls c file,
+  file_guard LUnwrap rust_actual file = true -> unwrap_report rust_actual ls c file = spec_unwrap_report ls c file.
 Proof. exact (unwrap_guarded rust_actual). Qed.
 Print Assumptions C17_unwrap_actual_partial.
 
-Theorem C17_clone_actual_partial : forall c file,
+Theorem C17_clone_actual_partial : forall ls c file,
   clone_switches_on (c_clone c) = true -> file_guard LClone rust_actual file = true ->
-  clone_report rust_actual c file = spec_clone_report c file.
-Proof. exact (fun c file H => clone_guarded rust_actual c file (or_intror H)). Qed.
+  clone_report rust_actual ls c file = spec_clone_report ls c file.
+Proof. exact (fun ls c file H => clone_guarded rust_actual ls c file (or_intror H)). Qed.
 Print Assumptions C17_clone_actual_partial.
 
-Theorem C17_blocking_actual_partial : forall c file,
-  file_guard LBlocking rust_actual file = true -> blocking_report rust_actual c file = spec_blocking_report c file.
-Proof. exact (blocking_guarded rust_actual). Qed.
+Theorem C17_blocking_actual_partial : forall ls c file,
+  file_guard LBlocking (msg_off rust_actual) file = true ->
+  map erase_msg (blocking_report rust_actual ls c file) = map erase_msg (spec_blocking_report ls c file).
+Proof. exact (fun ls c file H => eq_trans (blocking_msg_erased rust_actual ls c file) (f_equal (map erase_msg) (blocking_guarded (msg_off rust_actual) ls c file H))). Qed.
 Print Assumptions C17_blocking_actual_partial.
 
 (* 5b. the same confinement with a syntactic description of the defect classes (Proofs/RustSafetyPlain.v::plain_ok):
       no reportable call inside a macro invocation; "test" / "cfg(test)" occurring in an attribute text exactly
       when the attribute marks a test function / implies cfg(test); method calls on the line where their receiver
       chain starts; no clone in a `for` iterator expression; no NetType::method call path. *)
-Theorem C17_unwrap_actual_plain_partial : forall c file,
-  file_plain LUnwrap file = true -> unwrap_report rust_actual c file = spec_unwrap_report c file.
+Theorem C17_unwrap_actual_plain_partial : forall ls c file,
+  file_plain LUnwrap file = true -> unwrap_report rust_actual ls c file = spec_unwrap_report ls c file.
 Proof. exact unwrap_actual_plain. Qed.
 Print Assumptions C17_unwrap_actual_plain_partial.
 
-Theorem C17_clone_actual_plain_partial : forall c file,
+Theorem C17_clone_actual_plain_partial : forall ls c file,
   clone_switches_on (c_clone c) = true -> file_plain LClone file = true ->
-  clone_report rust_actual c file = spec_clone_report c file.
+  clone_report rust_actual ls c file = spec_clone_report ls c file.
 Proof. exact clone_actual_plain. Qed.
 Print Assumptions C17_clone_actual_plain_partial.
 
-Theorem C17_blocking_actual_plain_partial : forall c file,
-  file_plain LBlocking file = true -> blocking_report rust_actual c file = spec_blocking_report c file.
+Theorem C17_blocking_actual_plain_partial : forall ls c file,
+  file_plain LBlocking file = true ->
+  map erase_msg (blocking_report rust_actual ls c file) = map erase_msg (spec_blocking_report ls c file).
 Proof. exact blocking_actual_plain. Qed.
 Print Assumptions C17_blocking_actual_plain_partial.
 
 (* 6. switches: allow_expect removes exactly the expect-call reports; a blocking class's detect_* option
       removes exactly that class's reports; a clone pattern whose detect_* option is off is never reported *)
-Theorem C17_switch_allow_expect : forall c file,
-  spec_unwrap_report (with_unwrap c (set_opt "allow_expect" true (c_unwrap c))) file =
-  filter (drop_rule "unwrap-abuse.expect-call") (spec_unwrap_report (with_unwrap c (set_opt "allow_expect" false (c_unwrap c))) file).
+Theorem C17_switch_allow_expect : forall ls c file,
+  spec_unwrap_report ls (with_unwrap c (set_opt "allow_expect" true (c_unwrap c))) file =
+  filter (drop_rule "unwrap-abuse.expect-call") (spec_unwrap_report ls (with_unwrap c (set_opt "allow_expect" false (c_unwrap c))) file).
 Proof. exact switch_allow_expect. Qed.
 Print Assumptions C17_switch_allow_expect.
 
-Theorem C17_switch_blocking : forall c file cl, cl = "fs-in-async" \/ cl = "sleep-in-async" \/ cl = "net-in-async" ->
-  spec_blocking_report (with_blocking c (set_opt (blocking_switch cl) false (c_blocking c))) file =
-  filter (drop_rule (blocking_rule cl)) (spec_blocking_report (with_blocking c (set_opt (blocking_switch cl) true (c_blocking c))) file).
+Theorem C17_switch_blocking : forall ls c file cl, cl = "fs-in-async" \/ cl = "sleep-in-async" \/ cl = "net-in-async" ->
+  spec_blocking_report ls (with_blocking c (set_opt (blocking_switch cl) false (c_blocking c))) file =
+  filter (drop_rule (blocking_rule cl)) (spec_blocking_report ls (with_blocking c (set_opt (blocking_switch cl) true (c_blocking c))) file).
 Proof. exact switch_blocking. Qed.
 Print Assumptions C17_switch_blocking.
 
-Theorem C17_switch_clone_off : forall c file,
-  Forall (fun r => opt (c_clone c) (clone_switch_of_rule (rule_of_rep r)) true = true) (spec_clone_report c file).
+Theorem C17_switch_clone_off : forall ls c file,
+  Forall (fun r => opt (c_clone c) (clone_switch_of_rule (rule_of_rep r)) true = true) (spec_clone_report ls c file).
 Proof. exact switch_clone_off. Qed.
 Print Assumptions C17_switch_clone_off.
 
@@ -113,8 +118,14 @@ Theorem C17_documented_tables :
 Proof. exact documented_tables. Qed.
 Print Assumptions C17_documented_tables.
 
-(* non-vacuity: a file in the domain, inside the guard of the faithful model for all three linters, with
-   test and non-test code, a loop, an async fn and a wrapper, on which the specification reports calls *)
+(* 8. the message quirk of blocking-async changes message texts only *)
+Theorem C17_blocking_msg_only : forall q ls c file,
+  map erase_msg (blocking_report q ls c file) = map erase_msg (blocking_report (msg_off q) ls c file).
+Proof. exact blocking_msg_erased. Qed.
+Print Assumptions C17_blocking_msg_only.
+
+(* non-vacuity: a file in the domain, outside every defect class (file_plain) for all three linters, with test and
+   non-test code, a loop, an async fn and a wrapper, on which the specification reports calls with their messages *)
 Definition ex_file : list node :=
   [N (KFn [SAttr "#[test]"] false "t") [N KStmt [N (KMethod 2 4 2 "unwrap") [N (KId "v0") []]]];
    N (KMod [SAttr "#[cfg(test)]"]) [N (KFn [] false "h") [N (KLet "b") [N (KMethod 6 16 6 "clone") [N (KId "v1") []]]]];
@@ -122,14 +133,20 @@ Definition ex_file : list node :=
      [N KStmt [N (KLoop LLoop "") [N KStmt [N (KMethod 11 8 11 "clone") [N (KId "v1") []]]]];
       N KStmt [N (KMethod 13 4 13 "expect") [N (KCall 13 4 ["std"; "fs"; "read"]) [N (KId "p") []]; N KLit []]];
       N KStmt [N (KCall 14 4 ["tokio"; "task"; "spawn_blocking"]) [N (KClosure "") [N (KCall 14 34 ["thread"; "sleep"]) [N (KId "d") []]]]]]].
+Definition ex_lines : srclines :=
+  [(2, "    v0.unwrap();"); (6, "        let b = v1.clone();"); (11, "        v1.clone();");
+   (13, "    std::fs::read(p).expect(""msg"");"); (14, "    tokio::task::spawn_blocking(|| thread::sleep(d));")].
+Definition defaults : config := {| c_unwrap := []; c_clone := []; c_blocking := [] |}.
 Definition strict : config :=
   {| c_unwrap := [("allow_in_tests", false); ("allow_expect", false)]; c_clone := [("allow_in_tests", false)]; c_blocking := [] |}.
 Example C17_nonvacuous :
   file_domain ex_file = true /\
-  file_plain LUnwrap ex_file = true /\ file_plain LClone ex_file = true /\ file_plain LBlocking ex_file = true /\
-  spec_report {| c_unwrap := []; c_clone := []; c_blocking := [] |} ex_file =
-    [("clone-abuse.clone-in-loop", 12, 8); ("blocking-async.fs-in-async", 14, 4)] /\
-  spec_report strict ex_file =
+  file_plain LUnwrap ex_file = true /\ file_plain LClone ex_file = true /\
+  file_guard LBlocking rust_actual ex_file = false /\ file_guard LBlocking (msg_off rust_actual) ex_file = true /\
+  spec_report ex_lines defaults ex_file =
+    [("clone-abuse.clone-in-loop", 12, 8, ".clone() called inside a loop body may cause performance issues: v1.clone();");
+     ("blocking-async.fs-in-async", 14, 4, "Blocking std::fs operation inside async function: std::fs::read")] /\
+  map erase_msg (spec_report ex_lines strict ex_file) =
     [("unwrap-abuse.unwrap-call", 3, 4); ("unwrap-abuse.expect-call", 14, 4);
      ("clone-abuse.unnecessary-clone", 7, 16); ("clone-abuse.clone-in-loop", 12, 8); ("blocking-async.fs-in-async", 14, 4)].
 Proof. vm_compute. repeat split; reflexivity. Qed.
@@ -137,8 +154,8 @@ Proof. vm_compute. repeat split; reflexivity. Qed.
 (* regression: the witness of the finding repaired in /repo (def5e3f) now meets the specification under the
    faithful model *)
 Definition w_attr_stop_at_comment : list node := [N (KFn [SAttr "#[test]"; SComment] false "f") [N KStmt [N (KMethod 3 4 3 "unwrap") [N (KId "v0") []]]]].
-Definition defaults : config := {| c_unwrap := []; c_clone := []; c_blocking := [] |}.
+Definition l_attr_stop_at_comment : srclines := [(3, "    v0.unwrap();")].
 Example C17_fixed_witness_passes :
-  report rust_actual defaults w_attr_stop_at_comment = spec_report defaults w_attr_stop_at_comment /\
-  spec_report defaults w_attr_stop_at_comment = [].
+  report rust_actual l_attr_stop_at_comment defaults w_attr_stop_at_comment = spec_report l_attr_stop_at_comment defaults w_attr_stop_at_comment /\
+  spec_report l_attr_stop_at_comment defaults w_attr_stop_at_comment = [].
 Proof. vm_compute. repeat split; reflexivity. Qed.
